@@ -94,6 +94,9 @@ pub enum Op {
     Handover(usize, Handover),
     Reopen,
     Audit,
+    /// Register this many filler names under an agent that is not part of the spec, so that the
+    /// identifiers allocated before and after lie a chosen distance apart.
+    Burn(usize),
 }
 
 /// One call on the store (or one close/reopen of the database).
@@ -111,6 +114,9 @@ pub enum Step {
     Rem(usize, usize, Vec<u8>),
     Clear(usize, usize),
     Read(usize, usize),
+    /// `id_for` of this many fresh filler names (see `Op::Burn`); not a single call, but it never
+    /// touches the content of an item of the spec.
+    Burn(usize),
 }
 
 impl Step {
@@ -130,13 +136,14 @@ impl Step {
             Step::Rem(..) => "remove_map",
             Step::Clear(..) => "clear_map",
             Step::Read(..) => "read_map",
+            Step::Burn(_) => "burn_ids",
         }
     }
 
     pub fn target(&self) -> Option<(usize, Option<usize>)> {
         match self {
             Step::Open(a) | Step::Drop(a) | Step::Handover(a, _) => Some((*a, None)),
-            Step::ReopenDb => None,
+            Step::ReopenDb | Step::Burn(_) => None,
             Step::IdFor(a, i)
             | Step::Put(a, i, _)
             | Step::Get(a, i)
@@ -168,6 +175,7 @@ impl Step {
             Step::Rem(a, i, k) => format!("remove_map {} key {}", at(a, i), esc(k)),
             Step::Clear(a, i) => format!("clear_map {}", at(a, i)),
             Step::Read(a, i) => format!("read_map {}", at(a, i)),
+            Step::Burn(n) => format!("id_for of {n} fresh filler names under the agent \"/verif-filler\""),
         }
     }
 }
@@ -266,6 +274,11 @@ pub struct GenParams {
     /// Chance (percent) that a written value is large (64 KiB - 1 MiB): long operations so that a
     /// SIGKILL can land in the middle of a WAL append.
     pub big_value_pct: u64,
+    /// Extra weight of `clear_map` among the map operations (0 = the basic mix, 1 in 20).
+    pub clear_extra: u64,
+    /// Follow every `clear_map` by a read of *every* item, so that a clear that reaches beyond its
+    /// own item is seen at once (and the witness is short).
+    pub audit_after_clear: bool,
 }
 
 const URIS: &[&str] = &[
@@ -336,6 +349,9 @@ pub struct Script {
     pub ops: Vec<Op>,
     /// The key pool the map operations draw from (reported with violations).
     pub keys: Vec<Vec<u8>>,
+    /// Number of leading operations that only set the scene (stride histories: registration order,
+    /// filler names, initial data); 0 for plain histories.
+    pub prologue: usize,
 }
 
 pub fn gen_spec(rng: &mut Rng, p: &GenParams) -> Spec {
@@ -428,14 +444,15 @@ pub fn gen_ops(rng: &mut Rng, spec: &Spec, keys: &[Vec<u8>], p: &GenParams, mut 
         } else if w < 15 {
             Op::Audit
         } else if map {
-            match rng.below(20) {
+            match rng.below(20 + p.clear_extra) {
                 0..=10 => {
                     serial += 1;
                     Op::Upd(a, i, rng.pick(keys).clone(), gen_value(rng, serial, p))
                 }
                 11..=14 => Op::Rem(a, i, rng.pick(keys).clone()),
                 15 => Op::Clear(a, i),
-                _ => Op::Read(a, i),
+                16..=19 => Op::Read(a, i),
+                _ => Op::Clear(a, i),
             }
         } else {
             match rng.below(10) {
@@ -447,7 +464,11 @@ pub fn gen_ops(rng: &mut Rng, spec: &Spec, keys: &[Vec<u8>], p: &GenParams, mut 
                 _ => Op::Get(a, i),
             }
         };
+        let cleared = matches!(op, Op::Clear(..));
         ops.push(op);
+        if cleared && p.audit_after_clear {
+            ops.push(Op::Audit);
+        }
     }
     ops
 }
@@ -459,7 +480,76 @@ pub fn gen_script(seed: u64, p: &GenParams) -> Script {
     let keys = gen_keys(rng);
     let mut ops = gen_ops(rng, &spec, &keys, p, 0);
     ops.push(Op::Audit);
-    Script { spec, ops, keys }
+    Script { spec, ops, keys, prologue: 0 }
+}
+
+/// Offsets (number of filler names registered first) of the stride histories: the identifiers of
+/// the first group then have low bytes around 0x00, 0x7f/0x80 and 0xff, and cross 255 -> 256.
+const STRIDE_OFFSETS: &[usize] = &[0, 0, 0, 1, 100, 126, 127, 250, 252, 253, 254, 255, 256, 300];
+
+/// A history in which *live items have identifiers an exact multiple of 256 apart* (for a store
+/// that numbers the names of a plane consecutively, as the RocksDB store does): the items of the
+/// spec are split into 2-3 groups, the names of one group are registered back to back, and filler
+/// names are registered between the groups so that the k-th item of every group has the identifier
+/// of the k-th item of the first group + 256 (or + 512, + 768). Map items come first in each group,
+/// so that maps meet maps. Identifiers are written into the keys little-endian, so such items
+/// differ only in the second byte of the key prefix: any range or prefix computed on the first
+/// byte alone (a clear, a range read) reaches the other item. Every item then receives data, and
+/// the seeded history that follows has many `clear_map`s, each followed by a read of everything.
+pub fn gen_script_stride(seed: u64, p: &GenParams) -> Script {
+    let mut rng = Rng::new(seed);
+    let rng = &mut rng;
+    let mut spec = gen_spec(rng, p);
+    let keys = gen_keys(rng);
+    let mut all: Vec<(usize, usize)> =
+        (0..spec.agents.len()).flat_map(|a| (0..spec.agents[a].items.len()).map(move |i| (a, i))).collect();
+    rng.shuffle(&mut all);
+    // At least one map item per group.
+    let n_groups = if all.len() >= 6 && rng.bool() { 3 } else { 2 };
+    let mut n_maps = all.iter().filter(|(a, i)| spec.agents[*a].items[*i].map).count();
+    for (a, i) in all.iter() {
+        if n_maps >= n_groups {
+            break;
+        }
+        if !spec.agents[*a].items[*i].map {
+            spec.agents[*a].items[*i].map = true;
+            n_maps += 1;
+        }
+    }
+    let mut groups: Vec<Vec<(usize, usize)>> = vec![Vec::new(); n_groups];
+    let (maps, values): (Vec<_>, Vec<_>) = all.iter().copied().partition(|(a, i)| spec.agents[*a].items[*i].map);
+    for (k, it) in maps.iter().chain(values.iter()).enumerate() {
+        groups[k % n_groups].push(*it);
+    }
+    // Registration order.
+    let mut ops = vec![Op::Burn(*rng.pick(STRIDE_OFFSETS))];
+    for (g, group) in groups.iter().enumerate() {
+        for (a, i) in group {
+            ops.push(Op::IdFor(*a, *i));
+        }
+        if g + 1 < n_groups {
+            let stride = 256 * *rng.pick(&[1usize, 1, 1, 2]);
+            ops.push(Op::Burn(stride - group.len()));
+        }
+    }
+    // Data in every map item and in most value items.
+    let mut serial = 0u32;
+    for (a, i) in all.iter().copied() {
+        if spec.agents[a].items[i].map {
+            for _ in 0..rng.range(1, 3) {
+                serial += 1;
+                ops.push(Op::Upd(a, i, rng.pick(&keys).clone(), gen_value(rng, serial, p)));
+            }
+        } else if rng.chance(2, 3) {
+            serial += 1;
+            ops.push(Op::Put(a, i, gen_value(rng, serial, p)));
+        }
+    }
+    ops.push(Op::Audit);
+    let prologue = ops.len();
+    ops.extend(gen_ops(rng, &spec, &keys, p, serial));
+    ops.push(Op::Audit);
+    Script { spec, ops, keys, prologue }
 }
 
 /// Deterministic expansion of operations into steps: node stores are opened and identifiers are
@@ -538,6 +628,7 @@ pub fn expand(spec: &Spec, ops: &[Op]) -> Vec<Step> {
                 have.iter_mut().for_each(|h| h.iter_mut().for_each(|x| *x = false));
                 steps.push(Step::ReopenDb);
             }
+            Op::Burn(n) => steps.push(Step::Burn(*n)),
             Op::Audit => {
                 for a in 0..spec.agents.len() {
                     for i in 0..spec.agents[a].items.len() {
